@@ -2,8 +2,8 @@
    part 2: the invariant through `run` (all instructions, nested runs by induction on fuel);
    part 3: the default escaper, format_value, World-level instances; part 4: provenance-style
    statements about the sinks and the mint points; part 5: autoescape flag by suffix. *)
-From TeraV Require Import Model.Value Model.Instr Model.Slice Model.VFormat Model.VM Model.Taint
-     Gen.Tables Gen.SafeTables.
+From TeraV Require Import Model.Value Model.Instr Model.Slice Model.VFormat Model.VM Model.StackCheck Model.CapCheck
+     Model.Taint Gen.Tables Gen.SafeTables.
 Local Open Scope nat_scope.
 
 (* ================================================================== part 1 *)
@@ -230,6 +230,280 @@ Section Basics.
   Proof. destruct v; cbn; try reflexivity; try discriminate. intros H ->. exact H. Qed.
 End Basics.
 
+(* ================================================================== part 1b: the chunk-level side condition *)
+
+(* what an abstract state of Model/CapCheck.v claims about a concrete state *)
+Definition kst (a : list bool) (st : list value) : Prop :=
+  forall i, nth i a false = true -> exists x, nth_error st i = Some (VStr x true).
+Definition lk_rel (k : lk) (o : option loop_frame) : Prop :=
+  match k with
+  | LUnk => True
+  | LEx => exists fr, o = Some fr
+  | LEnd t => exists fr, o = Some fr /\ lf_end_ip fr = t
+  end.
+Definition klo (l : list lk) (ls : list loop_frame) : Prop := forall i, lk_rel (nth i l LUnk) (nth_error ls i).
+Definition crel (a : cstate) (s : state) : Prop := kst (c_stack a) (stack s) /\ klo (c_loops a) (loops s).
+
+Definition cmatch (tbl : ctable) (ip : nat) (s : state) : Prop :=
+  match nth_error tbl ip with
+  | Some (Some a) => crel a s
+  | Some None => False
+  | None => True
+  end.
+
+Lemma kst_nil st : kst [] st.
+Proof. intros i H. destruct i; discriminate. Qed.
+
+Lemma kst_push_false a st v : kst a st -> kst (false :: a) (v :: st).
+Proof. intros H [|i] Hi; [discriminate|]. exact (H i Hi). Qed.
+
+Lemma kst_push_true a st x : kst a st -> kst (true :: a) (VStr x true :: st).
+Proof. intros H [|i] Hi; [exists x; reflexivity|]. exact (H i Hi). Qed.
+
+Lemma kst_push_flag a st v : kst a st -> kst (cflag v :: a) (v :: st).
+Proof.
+  intros H [|i] Hi; [|exact (H i Hi)]. cbn in Hi. destruct v; try discriminate. cbn in Hi. subst. eexists. reflexivity.
+Qed.
+
+Lemma nth_skipn_b {A} (d : A) n : forall (l : list A) i, nth i (skipn n l) d = nth (n + i) l d.
+Proof. induction n as [|n IH]; intros l i; [reflexivity|]. destruct l; cbn; [destruct i; reflexivity|apply IH]. Qed.
+
+Lemma nth_error_skipn_b {A} n : forall (l : list A) i, nth_error (skipn n l) i = nth_error l (n + i).
+Proof. induction n as [|n IH]; intros l i; [reflexivity|]. destruct l; cbn; [destruct i; reflexivity|apply IH]. Qed.
+
+Lemma kst_skipn n a st : kst a st -> kst (skipn n a) (skipn n st).
+Proof. intros H i Hi. rewrite nth_skipn_b in Hi. rewrite nth_error_skipn_b. exact (H _ Hi). Qed.
+
+Lemma kst_drop n a st st' : kst a st -> skipn n st = st' -> kst (skipn n a) st'.
+Proof. intros H <-. apply kst_skipn, H. Qed.
+
+Lemma skipn_skipn_b {A} m n (l : list A) : skipn m (skipn n l) = skipn (n + m) l.
+Proof. revert l. induction n as [|n IH]; intros l; [reflexivity|]. destruct l; cbn; [destruct m; reflexivity|apply IH]. Qed.
+
+Lemma stack_sub_ok a b st : stack_sub a b = true -> kst a st -> kst b st.
+Proof.
+  intros Hs H i Hi. apply H. unfold stack_sub in Hs. rewrite forallb_forall in Hs.
+  assert (Hlt : i < length b).
+  { destruct (Nat.lt_ge_cases i (length b)) as [L|G]; [exact L|]. rewrite nth_overflow in Hi by exact G. discriminate. }
+  specialize (Hs i). rewrite Hi in Hs. cbn in Hs. apply Hs. apply in_seq. lia.
+Qed.
+
+Lemma lk_sub_ok a b o : lk_sub a b = true -> lk_rel a o -> lk_rel b o.
+Proof.
+  destruct b as [| |t]; cbn; [auto| |].
+  - destruct a as [| |t']; [discriminate|auto|]. intros _ (fr & -> & _). eauto.
+  - destruct a as [| |t']; try discriminate. intros E. apply Nat.eqb_eq in E. subst. auto.
+Qed.
+
+Lemma loops_sub_ok a b ls : loops_sub a b = true -> klo a ls -> klo b ls.
+Proof.
+  intros Hs H i. unfold loops_sub in Hs. rewrite forallb_forall in Hs.
+  destruct (Nat.lt_ge_cases i (length b)) as [L|G].
+  - eapply lk_sub_ok; [apply Hs, in_seq; lia|apply H].
+  - rewrite nth_overflow by exact G. exact I.
+Qed.
+
+Lemma cstate_sub_ok a b s : cstate_sub a b = true -> crel a s -> crel b s.
+Proof.
+  unfold cstate_sub. intros H [Hk Hl]. apply andb_prop in H. destruct H as [H1 H2].
+  split; [eapply stack_sub_ok; eassumption|eapply loops_sub_ok; eassumption].
+Qed.
+
+Lemma klo_nil ls : klo [] ls.
+Proof. intros i. destruct i; exact I. Qed.
+
+Lemma klo_push k l fr ls : lk_rel k (Some fr) -> klo l ls -> klo (k :: l) (fr :: ls).
+Proof. intros Hk H [|i]; [exact Hk|apply H]. Qed.
+
+Lemma klo_tl l ls : klo l ls -> klo (tl l) (tl ls).
+Proof.
+  intros H i. destruct l as [|k l]; [destruct i; exact I|]. cbn [tl].
+  destruct ls as [|fr ls]; [specialize (H (S i)); cbn in *; destruct i; exact H|exact (H (S i))].
+Qed.
+
+Lemma klo_top_sim k l fr fr' ls : klo (k :: l) (fr :: ls) -> lf_end_ip fr' = lf_end_ip fr -> klo (k :: l) (fr' :: ls).
+Proof.
+  intros H E i. destruct i as [|i]; [|exact (H (S i))]. specialize (H 0). destruct k as [| |t]; cbn in *.
+  - exact I.
+  - exists fr'. reflexivity.
+  - destruct H as (f & Hf & He). inversion Hf; subst. exists fr'. split; [reflexivity|exact E].
+Qed.
+
+Lemma klo_sim_head L fr fr' ls : klo L (fr :: ls) -> lf_end_ip fr' = lf_end_ip fr -> klo L (fr' :: ls).
+Proof. intros H E. destruct L as [|k l]; [apply klo_nil|]. eapply klo_top_sim; eassumption. Qed.
+
+Lemma crel_top s : crel c_top s.
+Proof. split; [apply kst_nil|apply klo_nil]. Qed.
+
+Lemma crel_same a s s' : stack s' = stack s -> loops s' = loops s -> crel a s -> crel a s'.
+Proof. intros E1 E2 [H1 H2]. split; [rewrite E1; exact H1|rewrite E2; exact H2]. Qed.
+
+Lemma crel_push_false A L s v : crel (mkC A L) s -> crel (mkC (false :: A) L) (push s v).
+Proof. intros [H1 H2]. split; [apply kst_push_false, H1|exact H2]. Qed.
+Lemma crel_push_true A L s x : crel (mkC A L) s -> crel (mkC (true :: A) L) (push s (VStr x true)).
+Proof. intros [H1 H2]. split; [apply kst_push_true, H1|exact H2]. Qed.
+Lemma crel_push_flag A L s v : crel (mkC A L) s -> crel (mkC (cflag v :: A) L) (push s v).
+Proof. intros [H1 H2]. split; [apply kst_push_flag, H1|exact H2]. Qed.
+
+Lemma pop1_stack s v s1 : pop1 s = Some (v, s1) -> stack s = v :: stack s1 /\ loops s1 = loops s.
+Proof. unfold pop1. destruct (stack s) eqn:E; [discriminate|]. intros X; inversion X; subst. auto. Qed.
+Lemma pop2_stack s a b s1 : pop2 s = Some (a, b, s1) -> stack s = b :: a :: stack s1 /\ loops s1 = loops s.
+Proof. unfold pop2. destruct (stack s) as [|y [|x t]] eqn:E; try discriminate. intros X; inversion X; subst. auto. Qed.
+
+Lemma crel_pop1 A L s v s1 : pop1 s = Some (v, s1) -> crel (mkC A L) s -> crel (mkC (skipn 1 A) L) s1.
+Proof.
+  intros Hp [H1 H2]. destruct (pop1_stack _ _ _ Hp) as [E1 E2]. split; cbn [c_stack c_loops] in *.
+  - eapply kst_drop; [exact H1|]. rewrite E1. reflexivity.
+  - rewrite E2. exact H2.
+Qed.
+Lemma crel_pop2 A L s a b s1 : pop2 s = Some (a, b, s1) -> crel (mkC A L) s -> crel (mkC (skipn 2 A) L) s1.
+Proof.
+  intros Hp [H1 H2]. destruct (pop2_stack _ _ _ _ Hp) as [E1 E2]. split; cbn [c_stack c_loops] in *.
+  - eapply kst_drop; [exact H1|]. rewrite E1. reflexivity.
+  - rewrite E2. exact H2.
+Qed.
+
+Lemma crel_store_global a s n v : crel a s -> crel a (store_global s n v).
+Proof. apply crel_same; reflexivity. Qed.
+
+Lemma crel_store_local a s n v : crel a s -> crel a (store_local s n v).
+Proof.
+  intros [H1 H2]. unfold store_local. destruct (loops s) as [|f t] eqn:E; [apply crel_store_global; split; [exact H1|rewrite E; exact H2]|].
+  split; [exact H1|]. cbn. destruct (c_loops a) as [|k l]; [apply klo_nil|]. eapply klo_top_sim; [exact H2|reflexivity].
+Qed.
+
+Lemma pop_n_rest : forall n st acc items rest, pop_n n st acc = Some (items, rest) -> rest = skipn n st.
+Proof.
+  induction n as [|n IH]; cbn; intros st acc items rest E; [inversion E; reflexivity|].
+  destruct st; [discriminate|]. eapply IH, E.
+Qed.
+
+Lemma need_map_app a b : need_map (a ++ b) = need_map a + need_map b.
+Proof. induction a as [|x a IH]; cbn; [reflexivity|]. unfold need_map in *. cbn. rewrite IH. lia. Qed.
+Lemma need_map_rev_b fl : need_map (rev fl) = need_map fl.
+Proof. induction fl as [|x fl IH]; [reflexivity|]. cbn [rev]. rewrite need_map_app, IH. unfold need_map. cbn. lia. Qed.
+
+Lemma build_map_spreads_rest wd : forall fl st acc m rest,
+  build_map_spreads wd fl st acc = ROk (m, rest) -> rest = skipn (need_map fl) st.
+Proof.
+  induction fl as [|b fl IH]; cbn [build_map_spreads]; intros st acc m rest E; [inversion E; reflexivity|].
+  destruct b.
+  - destruct st as [|v t]; [discriminate|]. destruct v; try discriminate. apply IH in E. rewrite E. reflexivity.
+  - destruct st as [|v [|k t]]; try discriminate. destruct (w_as_key wd k); [|discriminate]. apply IH in E. rewrite E. reflexivity.
+Qed.
+
+Lemma build_list_spreads_rest : forall fl st acc l rest,
+  build_list_spreads fl st acc = ROk (l, rest) -> rest = skipn (length fl) st.
+Proof.
+  induction fl as [|b fl IH]; cbn [build_list_spreads]; intros st acc l rest E; [inversion E; reflexivity|].
+  destruct b.
+  - destruct st as [|v t]; [discriminate|]. destruct v; try discriminate. apply IH in E. rewrite E. reflexivity.
+  - destruct st as [|v t]; [discriminate|]. apply IH in E. rewrite E. reflexivity.
+Qed.
+
+Lemma crel_upd_stack A L s n st' v (b : bool) :
+  crel (mkC A L) s -> skipn n (stack s) = st' -> (b = true -> exists x, v = VStr x true) ->
+  crel (mkC (b :: skipn n A) L) (upd_stack s (v :: st')).
+Proof.
+  intros [H1 H2] E Hb. split; cbn [c_stack c_loops stack loops upd_stack] in *; [|exact H2].
+  assert (K : kst (skipn n A) st') by (eapply kst_drop; eassumption).
+  destruct b; [destruct (Hb eq_refl) as (x & ->); apply kst_push_true, K|apply kst_push_false, K].
+Qed.
+
+Lemma crel_true_top s x : crel (mkC [true] []) (push s (VStr x true)).
+Proof. split; [apply kst_push_true, kst_nil|apply klo_nil]. Qed.
+
+Lemma crel_start_iter A L s items comp :
+  crel (mkC A L) s -> crel (mkC A (LEnd 0 :: L)) (upd_loops s (new_loop items comp :: loops s)).
+Proof. intros [H1 H2]. split; [exact H1|]. apply klo_push; [|exact H2]. eexists. split; reflexivity. Qed.
+
+Definition lk_after_iterate (L : list lk) (t : nat) : list lk :=
+  match L with (LEx | LEnd _) :: r => LEnd t :: r | _ => L end.
+
+Lemma lf_advance_end fr t : lf_end_ip (lf_advance fr t) = t.
+Proof. unfold lf_advance. destruct (lf_rest fr); reflexivity. Qed.
+
+Lemma crel_iterate A L s fr rest t :
+  crel (mkC A L) s -> loops s = fr :: rest ->
+  crel (mkC A (lk_after_iterate L t)) (upd_loops s (lf_advance fr t :: rest)).
+Proof.
+  intros [H1 H2] E. split; [exact H1|]. cbn [c_stack c_loops loops upd_loops] in *. rewrite E in H2.
+  assert (Hsame : klo L (lf_advance fr t :: rest) \/ exists k r, L = k :: r /\ k <> LUnk).
+  { destruct L as [|[| |t0] r]; [left; apply klo_nil|left|right; eauto; exists LEx, r; split; [reflexivity|discriminate]|right; exists (LEnd t0), r; split; [reflexivity|discriminate]].
+    intros [|i]; [exact I|exact (H2 (S i))]. }
+  destruct L as [|[| |t0] r]; cbn [lk_after_iterate].
+  - apply klo_nil.
+  - intros [|i]; [exact I|exact (H2 (S i))].
+  - intros [|i]; [|exact (H2 (S i))]. eexists. split; [reflexivity|apply lf_advance_end].
+  - intros [|i]; [|exact (H2 (S i))]. eexists. split; [reflexivity|apply lf_advance_end].
+Qed.
+
+Lemma crel_iterate_nil A L s t : crel (mkC A L) s -> loops s = [] -> crel (mkC A (lk_after_iterate L t)) s.
+Proof.
+  intros [H1 H2] E. split; [exact H1|]. cbn [c_stack c_loops] in *. rewrite E in *.
+  destruct L as [|[| |t0] r]; cbn [lk_after_iterate]; try exact H2.
+  - specialize (H2 0). cbn in H2. destruct H2 as (fr & X). discriminate.
+  - specialize (H2 0). cbn in H2. destruct H2 as (fr & X & _). discriminate.
+Qed.
+
+Lemma lf_store_local_end fr n : lf_end_ip (lf_store_local fr n) = lf_end_ip fr.
+Proof. unfold lf_store_local. destruct (lf_key_name fr); [reflexivity|]. destruct (lf_value_name fr); reflexivity. Qed.
+
+Lemma emit_same W wr s o t s1 o1 : emit W wr s o t = Some (s1, o1) -> stack s1 = stack s /\ loops s1 = loops s.
+Proof.
+  unfold emit. destruct (caps s); [destruct (sink_write W wr o t); [|discriminate]|]; intros X; inversion X; subst; auto.
+Qed.
+
+Lemma crel_emit W wr s o t s1 o1 a : emit W wr s o t = Some (s1, o1) -> crel a s -> crel a s1.
+Proof. intros E. destruct (emit_same _ _ _ _ _ _ _ E). apply crel_same; assumption. Qed.
+
+Lemma crel_write_value W wr wd b s o v s1 o1 a : write_value W wr wd b s o v = Some (s1, o1) -> crel a s -> crel a s1.
+Proof. unfold write_value. destruct (negb b || value_is_safe v); apply crel_emit. Qed.
+
+(* ---------- tables ---------- *)
+
+Lemma cedges_match tbl edges t a' s' :
+  forallb (cedge_ok tbl) edges = true -> In (t, a') edges -> crel a' s' -> cmatch tbl t s'.
+Proof.
+  intros H Hin Hr. rewrite forallb_forall in H. specialize (H _ Hin). unfold cedge_ok in H. cbn [fst snd] in H.
+  unfold cmatch. destruct (nth_error tbl t) as [[b|]|]; [|discriminate|exact I].
+  eapply cstate_sub_ok; eassumption.
+Qed.
+
+Lemma call_from_nth len tbl : forall c ip0 k i,
+  call_from len tbl ip0 c = true -> nth_error c k = Some i -> cinstr_ok len tbl (ip0 + k) i = true.
+Proof.
+  induction c as [|x c IH]; intros ip0 k i H Hk; [destruct k; discriminate|].
+  cbn in H. apply andb_prop in H. destruct H as [H1 H2]. destruct k as [|k].
+  - inversion Hk; subst. rewrite Nat.add_0_r. exact H1.
+  - replace (ip0 + S k) with (S ip0 + k) by lia. eapply IH; eassumption.
+Qed.
+
+Lemma cmatch_entry c tbl s : cap_table_ok c tbl = true -> cmatch tbl 0 s.
+Proof.
+  unfold cap_table_ok. intros H. apply andb_prop in H. destruct H as [H _]. apply andb_prop in H. destruct H as [_ H].
+  unfold cmatch. destruct (nth_error tbl 0) as [[a|]|]; try discriminate.
+  eapply cstate_sub_ok; [exact H|apply crel_top].
+Qed.
+
+Lemma cmatch_step c tbl ip i s :
+  cap_table_ok c tbl = true -> nth_error c ip = Some i -> cmatch tbl ip s ->
+  exists a edges, crel a s /\ castep (length c) i ip a = Some edges /\ forallb (cedge_ok tbl) edges = true.
+Proof.
+  unfold cap_table_ok. intros H Hi Hm. apply andb_prop in H. destruct H as [_ H].
+  pose proof (call_from_nth _ _ _ 0 _ _ H Hi) as Hk. cbn in Hk. unfold cinstr_ok in Hk. unfold cmatch in Hm.
+  destruct (nth_error tbl ip) as [[a|]|]; [|destruct Hm|discriminate].
+  destruct (castep (length c) i ip a) as [edges|] eqn:Es; [|discriminate]. exists a, edges.
+  split; [exact Hm|split; [exact Es|exact Hk]].
+Qed.
+
+Lemma cmatch_out c tbl t s : cap_table_ok c tbl = true -> length c < t -> cmatch tbl t s.
+Proof.
+  unfold cap_table_ok. intros H Ht. apply andb_prop in H. destruct H as [H _]. apply andb_prop in H. destruct H as [H _].
+  apply Nat.eqb_eq in H. unfold cmatch. replace (nth_error tbl t) with (@None (option cstate)); [exact I|].
+  symmetry. apply nth_error_None. lia.
+Qed.
+
 (* ================================================================== part 2 *)
 
 Section Inv.
@@ -251,14 +525,10 @@ Section Inv.
 
   Definition aeon (t : template) : bool := match ae with Some b => b | None => t_autoescape t end.
 
-  (* a body that build_context accepted after the VM marked it safe was clean: true when every
-     RenderBodyComponent is preceded by Capture..EndCapture (compiler output), made true for any
-     chunk by guard_bodies *)
-  Definition body_pol : Prop :=
-    forall d k b c, w_build_ctx wd d k (Some (mark_safe b)) = ROk c -> vok b = true -> vok (mark_safe b) = true.
-
+  (* literal text / constants as in Model/Taint.v, and the decidable side condition of
+     Model/CapCheck.v: every RenderBodyComponent pops a body that a mint point pushed *)
   Definition chunk_okP (ch : list instr) : Prop :=
-    chunk_ok ok ch = true /\ (has_body_comp ch = true -> body_pol).
+    chunk_ok ok ch = true /\ bodies_from_capture ch = true.
 
   Definition tpl_okP (t : template) : Prop :=
     aeon t = true /\ chunk_okP (t_chunk t) /\ chunk_okP (t_root_chunk t) /\
@@ -576,7 +846,7 @@ Section Inv.
     match r with RDone s o => SInv s /\ OInv o | _ => True end.
 
   Definition IHf (f : nat) : Prop :=
-    forall tpl depth ch ip s o, tpl_okP tpl -> chunk_okP ch -> SInv s -> OInv o ->
+    forall tpl depth ch ip s o, tpl_okP tpl -> chunk_okP ch -> cmatch (the_table ch) ip s -> SInv s -> OInv o ->
       post (run W wr wd f tpl ae depth ch ip s o).
 
   Lemma new_state_inv c : ctx_ok c = true -> SInv (new_state c).
@@ -594,54 +864,83 @@ Section Inv.
   Ltac dm := match goal with
     | |- post (match ?x with _ => _ end) => destruct x eqn:?
     end.
-  Ltac nx IH Ht Hc := apply IH; [exact Ht | exact Hc | | ].
-  Ltac simple_case IH Ht Hc Ho :=
+  (* knowledge about the successor state from knowledge about s *)
+  Ltac crel_fwd :=
+    repeat match goal with
+    | Hp : pop1 ?s0 = Some (_, ?s1), Hr : crel (mkC _ _) ?s0 |- _ =>
+        lazymatch goal with | _ : crel _ s1 |- _ => fail | _ => pose proof (crel_pop1 _ _ _ _ _ Hp Hr) end
+    | Hp : pop2 ?s0 = Some (_, _, ?s1), Hr : crel (mkC _ _) ?s0 |- _ =>
+        lazymatch goal with | _ : crel _ s1 |- _ => fail | _ => pose proof (crel_pop2 _ _ _ _ _ _ Hp Hr) end
+    | He : emit _ _ ?s0 _ _ = Some (?s1, _), Hr : crel _ ?s0 |- _ =>
+        lazymatch goal with | _ : crel _ s1 |- _ => fail | _ => pose proof (crel_emit _ _ _ _ _ _ _ _ He Hr) end
+    | He : write_value _ _ _ _ ?s0 _ _ = Some (?s1, _), Hr : crel _ ?s0 |- _ =>
+        lazymatch goal with | _ : crel _ s1 |- _ => fail | _ => pose proof (crel_write_value _ _ _ _ _ _ _ _ _ _ He Hr) end
+    end.
+  Ltac crel_t :=
+    first [ eassumption
+          | apply crel_push_false; eassumption
+          | apply crel_push_true; eassumption
+          | apply crel_push_flag; eassumption
+          | apply crel_store_local; eassumption
+          | apply crel_store_global; eassumption
+          | apply crel_top
+          | apply crel_true_top
+          | (eapply crel_same; [reflexivity | reflexivity | eassumption])
+          | apply crel_push_true; (eapply crel_same; [reflexivity | reflexivity | eassumption]) ].
+  (* the successor (t, s') matches the table: t is the target of one of the checked edges *)
+  Ltac mt Hedges :=
+    eapply cedges_match;
+    [exact Hedges | first [left; reflexivity | right; left; reflexivity] | crel_fwd; crel_t].
+  Ltac nx0 IH Ht Hc := apply IH; [exact Ht | exact Hc | | | ].
+  Ltac nx IH Ht Hc Hedges := apply IH; [exact Ht | exact Hc | solve [mt Hedges] | | ].
+  Ltac simple_case IH Ht Hc Ho Hedges :=
     repeat dm; try exact I;
-    nx IH Ht Hc; [apply push_inv; [eassumption
+    nx IH Ht Hc Hedges; [apply push_inv; [eassumption
                          | first [reflexivity | eapply (wo_math Hw); eassumption | eapply (wo_negate Hw); eassumption]]
         | exact Ho].
-  (* a nested run: obtain its postcondition from IH, then split on its result *)
+  (* a nested run: obtain its postcondition from IH, then split on its result; the nested chunk is
+     entered with nothing known, which every state matches *)
   Ltac nest IH Htpl Hch :=
     match goal with
     | |- post (match run _ _ _ ?f ?t _ ?d ?c ?i ?s ?o with _ => _ end) =>
         let P := fresh "P" in
         assert (P : post (run W wr wd f t ae d c i s o));
-        [apply IH; [exact Htpl | exact Hch | | ]
+        [apply IH; [exact Htpl | exact Hch | exact (cmatch_entry _ _ _ (proj2 Hch)) | | ]
         | let s' := fresh "sn" in let o' := fresh "on" in
           destruct (run W wr wd f t ae d c i s o) as [s' o'| |]; try exact I; cbn [post] in P]
     end.
 
   Lemma step_inv f : IHf f -> IHf (S f).
   Proof.
-    intros IH tpl depth ch ip s o Ht Hc Hs Ho.
+    intros IH tpl depth ch ip s o Ht Hc Hcm Hs Ho.
     assert (Hae : match ae with Some b => b | None => t_autoescape tpl end = true) by apply Ht.
     cbn [run]. rewrite ?Hae.
     destruct (nth_error ch ip) as [i|] eqn:Hi; [|split; assumption].
-    assert (Hiok : instr_ok ok i = true) by (eapply nth_error_forallb; [apply Hc|exact Hi]).
-    assert (Hbp : is_body_comp i = true -> body_pol).
-    { intros Hb. apply Hc. unfold has_body_comp. apply existsb_exists. exists i.
-      split; [eapply nth_error_In, Hi|exact Hb]. }
-    destruct i as [v | n | a | a |  |  |  |  | t |  | n | n | n | k | k | fl | fl | n | n | n | n | n | n | t | t | t | t |  |  | kv | kv | t | n |  |  |  |  |  |  |  |  |  |  |  |  |  |  |  |  |  |  |  |  |  | p | p]; cbn [instr_ok is_body_comp] in Hiok, Hbp; cbv beta iota.
-    - (* LoadConst *) nx IH Ht Hc; [apply push_inv; assumption|exact Ho].
-    - (* LoadName *) nx IH Ht Hc; [apply push_inv; [exact Hs|apply load_name_v_ok, Hs]|exact Ho].
+    assert (Hiok : Taint.instr_ok ok i = true) by (eapply nth_error_forallb; [apply Hc|exact Hi]).
+    destruct (cmatch_step _ _ _ _ _ (proj2 Hc) Hi Hcm) as (a & edges & Hrel & Hstep & Hedges).
+    destruct a as [A L].
+    destruct i as [v | n | a | a |  |  |  |  | t |  | n | n | n | k | k | fl | fl | n | n | n | n | n | n | t | t | t | t |  |  | kv | kv | t | n |  |  |  |  |  |  |  |  |  |  |  |  |  |  |  |  |  |  |  |  |  | p | p]; cbn [Taint.instr_ok] in Hiok; cbn [castep c_stack c_loops] in Hstep;
+      cbv beta iota; try (injection Hstep as Hstep; subst edges).
+    - (* LoadConst *) nx IH Ht Hc Hedges; [apply push_inv; assumption|exact Ho].
+    - (* LoadName *) nx IH Ht Hc Hedges; [apply push_inv; [exact Hs|apply load_name_v_ok, Hs]|exact Ho].
     - (* LoadAttr *)
       destruct (pop1 s) as [[v s1]|] eqn:Hp; [|exact I]. destruct (pop1_inv _ _ _ Hp Hs) as [Hv Hs1].
       repeat dm; try exact I;
-        (nx IH Ht Hc; [apply push_inv; [exact Hs1|first [reflexivity|apply attr_or_undef_ok, Hv]]|exact Ho]).
+        (nx IH Ht Hc Hedges; [apply push_inv; [exact Hs1|first [reflexivity|apply attr_or_undef_ok, Hv]]|exact Ho]).
     - (* LoadAttrOpt *)
       destruct (pop1 s) as [[v s1]|] eqn:Hp; [|exact I]. destruct (pop1_inv _ _ _ Hp Hs) as [Hv Hs1].
       repeat dm; try exact I;
-        (nx IH Ht Hc; [apply push_inv; [exact Hs1|first [reflexivity|apply attr_or_undef_ok, Hv]]|exact Ho]).
+        (nx IH Ht Hc Hedges; [apply push_inv; [exact Hs1|first [reflexivity|apply attr_or_undef_ok, Hv]]|exact Ho]).
     - (* BinarySubscript *)
       destruct (pop2 s) as [[[val sub] s1]|] eqn:Hp; [|exact I].
       destruct (pop2_inv _ _ _ _ Hp Hs) as (Hval & Hsub & Hs1).
       destruct (subscript wd _ val sub) as [r|] eqn:E; [|exact I].
-      nx IH Ht Hc; [apply push_inv; [exact Hs1|eapply subscript_ok; eassumption]|exact Ho].
+      nx IH Ht Hc Hedges; [apply push_inv; [exact Hs1|eapply subscript_ok; eassumption]|exact Ho].
     - (* BinarySubscriptOpt *)
       destruct (pop2 s) as [[[val sub] s1]|] eqn:Hp; [|exact I].
       destruct (pop2_inv _ _ _ _ Hp Hs) as (Hval & Hsub & Hs1).
       destruct (subscript wd _ val sub) as [r|] eqn:E; [|exact I].
-      nx IH Ht Hc; [apply push_inv; [exact Hs1|eapply subscript_ok; eassumption]|exact Ho].
+      nx IH Ht Hc Hedges; [apply push_inv; [exact Hs1|eapply subscript_ok; eassumption]|exact Ho].
     - (* Slice *)
       destruct (stack s) as [|step [|stop [|start [|val t]]]] eqn:Est; try exact I.
       pose proof (si_stack _ Hs) as Hst. rewrite Est in Hst. cbn [forallb] in Hst.
@@ -649,7 +948,9 @@ Section Inv.
       apply andb_prop in Hst; destruct Hst as [_ Hst]. apply andb_prop in Hst; destruct Hst as [Hval Hrest].
       destruct (vm_slice _ val start stop step) as [r|] eqn:E; [|exact I].
       assert (Hr : vok r = true) by (eapply vm_slice_ok; eassumption).
-      nx IH Ht Hc; [apply SInv_upd_stack; [exact Hs|apply forallb_cons_intro; assumption]|exact Ho].
+      nx0 IH Ht Hc; [|apply SInv_upd_stack; [exact Hs|apply forallb_cons_intro; assumption]|exact Ho].
+      eapply cedges_match; [exact Hedges|left; reflexivity|].
+      apply (crel_upd_stack A L s 4 t r false Hrel); [rewrite Est; reflexivity|discriminate].
     - (* SliceOpt *)
       destruct (stack s) as [|step [|stop [|start [|val t]]]] eqn:Est; try exact I.
       pose proof (si_stack _ Hs) as Hst. rewrite Est in Hst. cbn [forallb] in Hst.
@@ -657,21 +958,23 @@ Section Inv.
       apply andb_prop in Hst; destruct Hst as [_ Hst]. apply andb_prop in Hst; destruct Hst as [Hval Hrest].
       destruct (vm_slice _ val start stop step) as [r|] eqn:E; [|exact I].
       assert (Hr : vok r = true) by (eapply vm_slice_ok; eassumption).
-      nx IH Ht Hc; [apply SInv_upd_stack; [exact Hs|apply forallb_cons_intro; assumption]|exact Ho].
+      nx0 IH Ht Hc; [|apply SInv_upd_stack; [exact Hs|apply forallb_cons_intro; assumption]|exact Ho].
+      eapply cedges_match; [exact Hedges|left; reflexivity|].
+      apply (crel_upd_stack A L s 4 t r false Hrel); [rewrite Est; reflexivity|discriminate].
     - (* WriteText *)
       destruct (emit W wr s o t) as [[s1 o1]|] eqn:E; [|exact I].
-      destruct (emit_inv _ _ _ _ _ E Hs Ho Hiok) as [Hs1 Ho1]. nx IH Ht Hc; assumption.
+      destruct (emit_inv _ _ _ _ _ E Hs Ho Hiok) as [Hs1 Ho1]. nx IH Ht Hc Hedges; assumption.
     - (* WriteTop *)
       destruct (pop1 s) as [[v s1]|] eqn:Hp; [|exact I]. destruct (pop1_inv _ _ _ Hp Hs) as [Hv Hs1].
       destruct (is_undefined v); [exact I|].
       destruct (write_value W wr wd true s1 o v) as [[s2 o2]|] eqn:E; [|exact I].
-      destruct (write_value_inv _ _ _ _ _ E Hs1 Ho Hv) as [Hs2 Ho2]. nx IH Ht Hc; assumption.
+      destruct (write_value_inv _ _ _ _ _ E Hs1 Ho Hv) as [Hs2 Ho2]. nx IH Ht Hc Hedges; assumption.
     - (* SetI *)
       destruct (pop1 s) as [[v s1]|] eqn:Hp; [|exact I]. destruct (pop1_inv _ _ _ Hp Hs) as [Hv Hs1].
-      nx IH Ht Hc; [apply store_local_inv; assumption|exact Ho].
+      nx IH Ht Hc Hedges; [apply store_local_inv; assumption|exact Ho].
     - (* SetGlobal *)
       destruct (pop1 s) as [[v s1]|] eqn:Hp; [|exact I]. destruct (pop1_inv _ _ _ Hp Hs) as [Hv Hs1].
-      nx IH Ht Hc; [apply store_global_inv; assumption|exact Ho].
+      nx IH Ht Hc Hedges; [apply store_global_inv; assumption|exact Ho].
     - (* Include *)
       destruct (assoc_get (w_templates wd) n) as [t2|] eqn:Et; [|exact I].
       pose proof (wo_templates Hw _ _ Et) as Ht2.
@@ -679,35 +982,44 @@ Section Inv.
       assert (Hinc : SInv inc0).
       { constructor; cbn; try reflexivity; [constructor|apply scope_of_ok, Hs|apply Hs]. }
       destruct (caps s) as [|c ct] eqn:Ec.
-      + nest IH Ht2 (proj1 (proj2 (proj2 Ht2))); [exact Hinc|exact Ho|]. destruct P as [_ Ho1]. nx IH Ht Hc; assumption.
+      + nest IH Ht2 (proj1 (proj2 (proj2 Ht2))); [exact Hinc|exact Ho|]. destruct P as [_ Ho1]. nx IH Ht Hc Hedges; assumption.
       + pose proof (si_caps _ Hs) as Hcaps. rewrite Ec in Hcaps. cbn [forallb] in Hcaps.
         apply andb_prop in Hcaps. destruct Hcaps as [Hcc Hct].
         nest IH Ht2 (proj1 (proj2 (proj2 Ht2))); [exact Hinc|exact Hcc|]. destruct on as [w1|c1]; [exact I|].
         destruct P as [_ Hc1]. cbn [OInv] in Hc1.
-        nx IH Ht Hc; [apply SInv_upd_caps; [exact Hs|apply forallb_cons_intro; assumption]|exact Ho].
+        nx IH Ht Hc Hedges; [apply SInv_upd_caps; [exact Hs|apply forallb_cons_intro; assumption]|exact Ho].
     - (* BuildMap *)
       destruct (pop_n _ (stack s) []) as [[items rest]|] eqn:E; [|exact I].
       destruct (pop_n_ok _ _ _ _ _ E (si_stack _ Hs) eq_refl) as [Hit Hrest].
       destruct (build_map_pairs wd items) as [pairs|] eqn:E2; [|exact I].
       assert (Hm : vok (VMap (map_of_pairs wd pairs)) = true).
       { rewrite vok_map. apply map_of_pairs_ok. eapply build_map_pairs_ok; [apply le_n|exact E2|exact Hit]. }
-      nx IH Ht Hc; [apply SInv_upd_stack; [exact Hs|apply forallb_cons_intro; assumption]|exact Ho].
+      nx0 IH Ht Hc; [|apply SInv_upd_stack; [exact Hs|apply forallb_cons_intro; assumption]|exact Ho].
+      eapply cedges_match; [exact Hedges|left; reflexivity|].
+      apply (crel_upd_stack A L s (2 * k) rest _ false Hrel); [symmetry; eapply pop_n_rest, E|discriminate].
     - (* BuildList *)
       destruct (pop_n k (stack s) []) as [[items rest]|] eqn:E; [|exact I].
       destruct (pop_n_ok _ _ _ _ _ E (si_stack _ Hs) eq_refl) as [Hit Hrest].
-      nx IH Ht Hc; [apply SInv_upd_stack; [exact Hs|apply forallb_cons_intro; [rewrite vok_arr; exact Hit|exact Hrest]]|exact Ho].
+      nx0 IH Ht Hc; [|apply SInv_upd_stack; [exact Hs|apply forallb_cons_intro; [rewrite vok_arr; exact Hit|exact Hrest]]|exact Ho].
+      eapply cedges_match; [exact Hedges|left; reflexivity|].
+      apply (crel_upd_stack A L s k rest _ false Hrel); [symmetry; eapply pop_n_rest, E|discriminate].
     - (* BuildMapWithSpreads *)
       destruct (build_map_spreads wd (rev fl) (stack s) []) as [[m rest]|] eqn:E; [|exact I].
-      destruct (build_map_spreads_ok _ _ _ _ _ E (si_stack _ Hs) eq_refl) as [Hm Hrest].
-      nx IH Ht Hc; [apply SInv_upd_stack; [exact Hs|apply forallb_cons_intro; [rewrite vok_map; exact Hm|exact Hrest]]|exact Ho].
+      destruct (build_map_spreads_ok _ _ _ _ _ E (si_stack _ Hs) eq_refl) as [Hm0 Hrest].
+      nx0 IH Ht Hc; [|apply SInv_upd_stack; [exact Hs|apply forallb_cons_intro; [rewrite vok_map; exact Hm0|exact Hrest]]|exact Ho].
+      eapply cedges_match; [exact Hedges|left; reflexivity|].
+      apply (crel_upd_stack A L s (need_map fl) rest _ false Hrel); [rewrite <- need_map_rev_b; symmetry; eapply build_map_spreads_rest, E|discriminate].
     - (* BuildListWithSpreads *)
       destruct (build_list_spreads (rev fl) (stack s) []) as [[l rest]|] eqn:E; [|exact I].
       destruct (build_list_spreads_ok _ _ _ _ _ E (si_stack _ Hs) eq_refl) as [Hl Hrest].
-      nx IH Ht Hc; [apply SInv_upd_stack; [exact Hs|apply forallb_cons_intro; [rewrite vok_arr; exact Hl|exact Hrest]]|exact Ho].
+      nx0 IH Ht Hc; [|apply SInv_upd_stack; [exact Hs|apply forallb_cons_intro; [rewrite vok_arr; exact Hl|exact Hrest]]|exact Ho].
+      eapply cedges_match; [exact Hedges|left; reflexivity|].
+      apply (crel_upd_stack A L s (need_list fl) rest _ false Hrel); [unfold need_list; rewrite <- (rev_length fl); symmetry; eapply build_list_spreads_rest, E|discriminate].
     - (* CallFunction *)
       destruct (pop1 s) as [[kw s1]|] eqn:Hp; [|exact I]. destruct (pop1_inv _ _ _ Hp Hs) as [Hkw Hs1].
       destruct (str_eqb n _) eqn:Esuper.
-      + (* super(): mint point; the nested block renders into a fresh buffer with the capture stack detached *)
+      + injection Hstep as Hstep; subst edges.
+        (* super(): mint point; the nested block renders into a fresh buffer with the capture stack detached *)
         destruct (cur_block s1) as [cb|] eqn:Ecb; [|exact I].
         match goal with |- post (match ?x with _ => _ end) =>
           assert (Ex : x = find_block cb (blocks s1) []) by reflexivity; rewrite Ex; clear Ex end.
@@ -722,11 +1034,12 @@ Section Inv.
         * apply SInv_upd_caps; [|reflexivity]. apply SInv_upd_blocks; [exact Hs1|apply Hbl].
         * reflexivity.
         * destruct on as [w1|text]; [exact I|]. destruct P as [Hs3 Htext]. cbn [OInv] in Htext.
-          nx IH Ht Hc; [|exact Ho]. apply push_inv; [|exact Htext].
+          nx IH Ht Hc Hedges; [|exact Ho]. apply push_inv; [|exact Htext].
           apply SInv_upd_caps; [|apply Hs1]. apply SInv_upd_blocks; [exact Hs3|apply Hbl].
-      + destruct (kwargs_of kw) as [k0|] eqn:Ek; [|exact I].
+      + injection Hstep as Hstep; subst edges.
+        destruct (kwargs_of kw) as [k0|] eqn:Ek; [|exact I].
         destruct (w_function wd n k0 (scope_of s1)) as [[[r|e] sf]|] eqn:Ef; try exact I.
-        nx IH Ht Hc; [apply push_inv; [exact Hs1|eapply (wo_function Hw);
+        nx IH Ht Hc Hedges; [apply push_inv; [exact Hs1|eapply (wo_function Hw);
                [exact Ef|eapply kwargs_of_ok; eassumption|apply scope_of_ok, Hs1]]|exact Ho].
     - (* RenderInlineComponent: the result is a mint point *)
       destruct (pop1 s) as [[kw s1]|] eqn:Hp; [|exact I]. destruct (pop1_inv _ _ _ Hp Hs) as [Hkw Hs1].
@@ -738,8 +1051,9 @@ Section Inv.
         by (eapply (wo_build_ctx Hw); [exact Ecp|exact Eb|eapply kwargs_of_ok; eassumption|reflexivity]).
       nest IH Ht (wo_components Hw _ _ _ Ecp); [apply new_state_inv, Hcc|reflexivity|].
       destruct on as [w1|text]; [exact I|]. destruct P as [_ Htext]. cbn [OInv] in Htext.
-      nx IH Ht Hc; [apply push_inv; assumption|exact Ho].
+      nx IH Ht Hc Hedges; [apply push_inv; assumption|exact Ho].
     - (* RenderBodyComponent: body.mark_safe() and the result are mint points *)
+      destruct (nth 1 A false) eqn:Hn1; [|discriminate]. injection Hstep as Hstep; subst edges.
       destruct (pop1 s) as [[kw s1]|] eqn:Hp; [|exact I]. destruct (pop1_inv _ _ _ Hp Hs) as [Hkw Hs1].
       destruct (kwargs_of kw) as [k0|] eqn:Ek; [|repeat dm; exact I].
       destruct (assoc_get (w_components wd) n) as [[def cchunk]|] eqn:Ecp; [|exact I].
@@ -747,23 +1061,32 @@ Section Inv.
       destruct (pop1_inv _ _ _ Hp2 Hs1) as [Hb Hs2].
       destruct (w_build_ctx wd def k0 (Some (mark_safe b))) as [cctx|] eqn:Eb; [|exact I].
       destruct (Nat.ltb (w_max_depth wd) (S depth)); [exact I|].
-      assert (Hmb : vok (mark_safe b) = true) by (eapply (Hbp eq_refl); eassumption).
+      (* the side condition: the slot under the kwargs is known to hold a flagged string, so
+         mark_safe changes nothing and the body is clean by the invariant *)
+      assert (Hfl : exists x, b = VStr x true).
+      { destruct (proj1 Hrel 1 Hn1) as (x & Hx). destruct (pop1_stack _ _ _ Hp) as [E1 _].
+        destruct (pop1_stack _ _ _ Hp2) as [E2 _]. cbn [c_stack] in Hx. rewrite E1, E2 in Hx. cbn in Hx.
+        inversion Hx. eauto. }
+      assert (Hmb : vok (mark_safe b) = true) by (destruct Hfl as (x & ->); exact Hb).
+      pose proof (crel_pop1 _ _ _ _ _ Hp2 (crel_pop1 _ _ _ _ _ Hp Hrel)) as Hr2.
+      rewrite skipn_skipn_b in Hr2. cbn [Nat.add] in Hr2.
       assert (Hcc : ctx_ok cctx = true)
         by (eapply (wo_build_ctx Hw); [exact Ecp|exact Eb|eapply kwargs_of_ok; eassumption|exact Hmb]).
       nest IH Ht (wo_components Hw _ _ _ Ecp); [apply new_state_inv, Hcc|reflexivity|].
       destruct on as [w1|text]; [exact I|]. destruct P as [_ Htext]. cbn [OInv] in Htext.
-      nx IH Ht Hc; [apply push_inv; assumption|exact Ho].
+      nx0 IH Ht Hc; [|apply push_inv; assumption|exact Ho].
+      eapply cedges_match; [exact Hedges|left; reflexivity|apply crel_push_true; exact Hr2].
     - (* ApplyFilter *)
       destruct (pop2 s) as [[[v kw] s1]|] eqn:Hp; [|exact I].
       destruct (pop2_inv _ _ _ _ Hp Hs) as (Hv & Hkw & Hs1).
       destruct (kwargs_of kw) as [k0|] eqn:Ek; [|exact I].
       destruct (w_filter wd n v k0 (scope_of s1)) as [[[r|e] sf]|] eqn:Ef; try exact I.
-      nx IH Ht Hc; [apply push_inv; [exact Hs1|eapply (wo_filter Hw);
+      nx IH Ht Hc Hedges; [apply push_inv; [exact Hs1|eapply (wo_filter Hw);
              [exact Ef|exact Hv|eapply kwargs_of_ok; eassumption|apply scope_of_ok, Hs1]]|exact Ho].
     - (* RunTest *)
       destruct (pop2 s) as [[[v kw] s1]|] eqn:Hp; [|exact I].
       destruct (pop2_inv _ _ _ _ Hp Hs) as (Hv & Hkw & Hs1).
-      simple_case IH Ht Hc Ho.
+      simple_case IH Ht Hc Ho Hedges.
     - (* RenderBlock *)
       destruct (assoc_get (t_lineage tpl) n) as [[|bchunk lin_rest]|] eqn:El; try exact I.
       pose proof (proj2 (proj2 (proj2 Ht)) _ _ El) as Hl.
@@ -773,111 +1096,140 @@ Section Inv.
       dm.
       + nest IH Ht Hbc; [apply SInv_upd_caps; [exact Hs1|reflexivity]|reflexivity|]. destruct on as [w1|text]; [exact I|].
         destruct P as [Hs2 Htext]. cbn [OInv] in Htext.
-        nx IH Ht Hc; [apply SInv_upd_block_buffer; [apply SInv_upd_caps; [apply SInv_upd_blocks; [exact Hs2|apply blocks_tl, Hs2]|apply Hs]|exact Htext]|exact Ho].
+        nx IH Ht Hc Hedges; [apply SInv_upd_block_buffer; [apply SInv_upd_caps; [apply SInv_upd_blocks; [exact Hs2|apply blocks_tl, Hs2]|apply Hs]|exact Htext]|exact Ho].
       + nest IH Ht Hbc; [exact Hs1|exact Ho|]. destruct P as [Hs2 Ho2].
-        nx IH Ht Hc; [apply SInv_upd_blocks; [exact Hs2|apply blocks_tl, Hs2]|exact Ho2].
-    - (* Jump *) nx IH Ht Hc; assumption.
+        nx IH Ht Hc Hedges; [apply SInv_upd_blocks; [exact Hs2|apply blocks_tl, Hs2]|exact Ho2].
+    - (* Jump *) nx IH Ht Hc Hedges; assumption.
     - (* PopJumpIfFalse *)
       destruct (pop1 s) as [[v s1]|] eqn:Hp; [|exact I]. destruct (pop1_inv _ _ _ Hp Hs) as [Hv Hs1].
-      destruct (is_truthy v); nx IH Ht Hc; assumption.
+      destruct (is_truthy v); nx IH Ht Hc Hedges; assumption.
     - (* JumpIfFalseOrPop *)
       destruct (pop1 s) as [[v s1]|] eqn:Hp; [|exact I]. destruct (pop1_inv _ _ _ Hp Hs) as [Hv Hs1].
-      destruct (is_truthy v); nx IH Ht Hc; assumption.
+      destruct (is_truthy v); nx IH Ht Hc Hedges; assumption.
     - (* JumpIfTrueOrPop *)
       destruct (pop1 s) as [[v s1]|] eqn:Hp; [|exact I]. destruct (pop1_inv _ _ _ Hp Hs) as [Hv Hs1].
-      destruct (is_truthy v); nx IH Ht Hc; assumption.
+      destruct (is_truthy v); nx IH Ht Hc Hedges; assumption.
     - (* Capture *)
-      nx IH Ht Hc; [apply SInv_upd_caps; [exact Hs|apply forallb_cons_intro; [reflexivity|apply Hs]]|exact Ho].
+      nx IH Ht Hc Hedges; [apply SInv_upd_caps; [exact Hs|apply forallb_cons_intro; [reflexivity|apply Hs]]|exact Ho].
     - (* EndCapture: mint point; the buffer is clean by the invariant *)
       destruct (caps s) as [|c ct] eqn:Ec; [exact I|].
       pose proof (si_caps _ Hs) as Hcaps. rewrite Ec in Hcaps. cbn [forallb] in Hcaps.
       apply andb_prop in Hcaps. destruct Hcaps as [Hcc Hct].
-      nx IH Ht Hc; [apply push_inv; [apply SInv_upd_caps; assumption|exact Hcc]|exact Ho].
+      nx IH Ht Hc Hedges; [apply push_inv; [apply SInv_upd_caps; assumption|exact Hcc]|exact Ho].
     - (* StartIterate *)
       destruct (pop1 s) as [[v s1]|] eqn:Hp; [|exact I]. destruct (pop1_inv _ _ _ Hp Hs) as [Hv Hs1].
       destruct (iter_items v) as [items|] eqn:Ei; [|exact I].
       dm; [exact I|].
-      nx IH Ht Hc; [apply SInv_upd_loops; [exact Hs1|apply forallb_cons_intro;
+      nx0 IH Ht Hc; [eapply cedges_match; [exact Hedges|left; reflexivity|apply crel_start_iter; eapply crel_pop1; eassumption]|apply SInv_upd_loops; [exact Hs1|apply forallb_cons_intro;
              [apply new_loop_ok; eapply iter_items_ok; eassumption|apply Hs1]]|exact Ho].
     - (* StartIterateComprehension *)
       destruct (pop1 s) as [[v s1]|] eqn:Hp; [|exact I]. destruct (pop1_inv _ _ _ Hp Hs) as [Hv Hs1].
       destruct (iter_items v) as [items|] eqn:Ei; [|exact I].
       dm; [exact I|].
-      nx IH Ht Hc; [apply SInv_upd_loops; [exact Hs1|apply forallb_cons_intro;
+      nx0 IH Ht Hc; [eapply cedges_match; [exact Hedges|left; reflexivity|apply crel_start_iter; eapply crel_pop1; eassumption]|apply SInv_upd_loops; [exact Hs1|apply forallb_cons_intro;
              [apply new_loop_ok; eapply iter_items_ok; eassumption|apply Hs1]]|exact Ho].
     - (* Iterate *)
-      destruct (loops s) as [|fr rest] eqn:El; [nx IH Ht Hc; assumption|].
+      destruct (loops s) as [|fr rest] eqn:El.
+      { nx0 IH Ht Hc; [|assumption|assumption]. eapply cedges_match; [exact Hedges|left; reflexivity|].
+        apply (crel_iterate_nil A L s t Hrel El). }
       pose proof (si_loops _ Hs) as Hl. rewrite El in Hl. cbn [forallb] in Hl.
       apply andb_prop in Hl. destruct Hl as [Hfr Hrest].
-      destruct (lf_rest fr); [nx IH Ht Hc; assumption|].
-      nx IH Ht Hc; [apply SInv_upd_loops; [exact Hs|apply forallb_cons_intro; [apply lf_advance_ok, Hfr|exact Hrest]]|exact Ho].
+      destruct (lf_rest fr); [nx0 IH Ht Hc; [eapply cedges_match; [exact Hedges|right; left; reflexivity|exact Hrel]|assumption|assumption]|].
+      nx0 IH Ht Hc; [eapply cedges_match; [exact Hedges|left; reflexivity|apply (crel_iterate A L s fr rest t Hrel El)]|apply SInv_upd_loops; [exact Hs|apply forallb_cons_intro; [apply lf_advance_ok, Hfr|exact Hrest]]|exact Ho].
     - (* StoreLocal *)
-      destruct (loops s) as [|fr rest] eqn:El; [nx IH Ht Hc; assumption|].
+      destruct (loops s) as [|fr rest] eqn:El; [nx IH Ht Hc Hedges; assumption|].
       pose proof (si_loops _ Hs) as Hl. rewrite El in Hl. cbn [forallb] in Hl.
       apply andb_prop in Hl. destruct Hl as [Hfr Hrest].
-      nx IH Ht Hc; [apply SInv_upd_loops; [exact Hs|apply forallb_cons_intro; [apply lf_store_local_ok, Hfr|exact Hrest]]|exact Ho].
+      nx0 IH Ht Hc; [eapply cedges_match; [exact Hedges|left; reflexivity|]|apply SInv_upd_loops; [exact Hs|apply forallb_cons_intro; [apply lf_store_local_ok, Hfr|exact Hrest]]|exact Ho].
+      split; [apply Hrel|]. cbn [c_loops loops upd_loops]. eapply klo_sim_head; [rewrite <- El; apply Hrel|apply lf_store_local_end].
+
     - (* StoreDidNotIterate *)
-      destruct (loops s) as [|fr rest] eqn:El; [nx IH Ht Hc; assumption|].
-      nx IH Ht Hc; [apply push_inv; [exact Hs|reflexivity]|exact Ho].
+      destruct (loops s) as [|fr rest] eqn:El.
+      + nx0 IH Ht Hc; [|assumption|assumption].
+        destruct L as [|[| |t0] L']; injection Hstep as Hstep; subst edges;
+          (eapply cedges_match; [exact Hedges|left; reflexivity|]);
+          try (split; [apply kst_nil|apply Hrel]).
+        * destruct (proj2 Hrel 0) as (fr0 & X). cbn in X. rewrite El in X. discriminate.
+        * destruct (proj2 Hrel 0) as (fr0 & X & _). cbn in X. rewrite El in X. discriminate.
+      + nx0 IH Ht Hc; [|apply push_inv; [exact Hs|reflexivity]|exact Ho].
+        destruct L as [|[| |t0] L']; injection Hstep as Hstep; subst edges;
+          (eapply cedges_match; [exact Hedges|left; reflexivity|]);
+          first [apply crel_push_false; exact Hrel | split; [apply kst_nil|apply Hrel]].
+
     - (* Break *)
-      destruct (loops s) as [|fr rest] eqn:El; nx IH Ht Hc; assumption.
+      destruct (loops s) as [|fr rest] eqn:El.
+      + nx0 IH Ht Hc; [|assumption|assumption].
+        destruct L as [|[| |t0] L']; injection Hstep as Hstep; subst edges;
+          try (eapply cedges_match; [exact Hedges|left; reflexivity|exact Hrel]).
+        destruct (proj2 Hrel 0) as (fr0 & X & _). cbn in X. rewrite El in X. discriminate.
+      + nx0 IH Ht Hc; [|assumption|assumption].
+        assert (Hany : forallb (cedge_ok (the_table ch)) ((S ip, mkC A L) :: map (fun t => (t, mkC A L)) (seq 0 (S (length ch)))) = true ->
+                       cmatch (the_table ch) (lf_end_ip fr) s).
+        { intros Hed. destruct (Nat.le_gt_cases (lf_end_ip fr) (length ch)) as [Hle|Hgt].
+          - eapply cedges_match; [exact Hed| |exact Hrel]. right. apply in_map_iff. exists (lf_end_ip fr).
+            split; [reflexivity|apply in_seq; lia].
+          - eapply cmatch_out; [exact (proj2 Hc)|exact Hgt]. }
+        destruct L as [|[| |t0] L']; injection Hstep as Hstep; subst edges; try (apply Hany; exact Hedges).
+        destruct (proj2 Hrel 0) as (fr0 & X & Hend). cbn in X. rewrite El in X. inversion X; subst fr0.
+        rewrite Hend. eapply cedges_match; [exact Hedges|left; reflexivity|exact Hrel].
+
     - (* PopLoop *)
-      nx IH Ht Hc; [apply SInv_upd_loops; [exact Hs|apply forallb_tl, Hs]|exact Ho].
+      nx0 IH Ht Hc; [eapply cedges_match; [exact Hedges|left; reflexivity|split; [apply Hrel|apply klo_tl, Hrel]]|apply SInv_upd_loops; [exact Hs|apply forallb_tl, Hs]|exact Ho].
     - (* AppendToList *)
       destruct (stack s) as [|v [|l t]] eqn:Est; try exact I. destruct l as [| | | | | |l| |]; try exact I.
       pose proof (si_stack _ Hs) as Hst. rewrite Est in Hst. cbn [forallb] in Hst.
       apply andb_prop in Hst; destruct Hst as [Hv Hst]. apply andb_prop in Hst; destruct Hst as [Hl Hrest].
-      nx IH Ht Hc; [apply SInv_upd_stack; [exact Hs|apply forallb_cons_intro; [|exact Hrest]]|exact Ho].
+      nx0 IH Ht Hc; [eapply cedges_match; [exact Hedges|left; reflexivity|apply (crel_upd_stack A L s 2 t _ false Hrel); [rewrite Est; reflexivity|discriminate]]|apply SInv_upd_stack; [exact Hs|apply forallb_cons_intro; [|exact Hrest]]|exact Ho].
       rewrite vok_arr in *. rewrite forallb_app, Hl. cbn. rewrite Hv. reflexivity.
     - (* Mul *) destruct (pop2 s) as [[[a b] s1]|] eqn:Hp; [|exact I].
-      destruct (pop2_inv _ _ _ _ Hp Hs) as (Ha & Hb & Hs1). simple_case IH Ht Hc Ho.
+      destruct (pop2_inv _ _ _ _ Hp Hs) as (Ha & Hb & Hs1). simple_case IH Ht Hc Ho Hedges.
     - (* Div *) destruct (pop2 s) as [[[a b] s1]|] eqn:Hp; [|exact I].
-      destruct (pop2_inv _ _ _ _ Hp Hs) as (Ha & Hb & Hs1). simple_case IH Ht Hc Ho.
+      destruct (pop2_inv _ _ _ _ Hp Hs) as (Ha & Hb & Hs1). simple_case IH Ht Hc Ho Hedges.
     - (* FloorDiv *) destruct (pop2 s) as [[[a b] s1]|] eqn:Hp; [|exact I].
-      destruct (pop2_inv _ _ _ _ Hp Hs) as (Ha & Hb & Hs1). simple_case IH Ht Hc Ho.
+      destruct (pop2_inv _ _ _ _ Hp Hs) as (Ha & Hb & Hs1). simple_case IH Ht Hc Ho Hedges.
     - (* Mod *) destruct (pop2 s) as [[[a b] s1]|] eqn:Hp; [|exact I].
-      destruct (pop2_inv _ _ _ _ Hp Hs) as (Ha & Hb & Hs1). simple_case IH Ht Hc Ho.
+      destruct (pop2_inv _ _ _ _ Hp Hs) as (Ha & Hb & Hs1). simple_case IH Ht Hc Ho Hedges.
     - (* Plus *) destruct (pop2 s) as [[[a b] s1]|] eqn:Hp; [|exact I].
-      destruct (pop2_inv _ _ _ _ Hp Hs) as (Ha & Hb & Hs1). simple_case IH Ht Hc Ho.
+      destruct (pop2_inv _ _ _ _ Hp Hs) as (Ha & Hb & Hs1). simple_case IH Ht Hc Ho Hedges.
     - (* Minus *) destruct (pop2 s) as [[[a b] s1]|] eqn:Hp; [|exact I].
-      destruct (pop2_inv _ _ _ _ Hp Hs) as (Ha & Hb & Hs1). simple_case IH Ht Hc Ho.
+      destruct (pop2_inv _ _ _ _ Hp Hs) as (Ha & Hb & Hs1). simple_case IH Ht Hc Ho Hedges.
     - (* Power *) destruct (pop2 s) as [[[a b] s1]|] eqn:Hp; [|exact I].
-      destruct (pop2_inv _ _ _ _ Hp Hs) as (Ha & Hb & Hs1). simple_case IH Ht Hc Ho.
+      destruct (pop2_inv _ _ _ _ Hp Hs) as (Ha & Hb & Hs1). simple_case IH Ht Hc Ho Hedges.
     - (* LessThan *) destruct (pop2 s) as [[[a b] s1]|] eqn:Hp; [|exact I].
-      destruct (pop2_inv _ _ _ _ Hp Hs) as (Ha & Hb & Hs1). simple_case IH Ht Hc Ho.
+      destruct (pop2_inv _ _ _ _ Hp Hs) as (Ha & Hb & Hs1). simple_case IH Ht Hc Ho Hedges.
     - (* GreaterThan *) destruct (pop2 s) as [[[a b] s1]|] eqn:Hp; [|exact I].
-      destruct (pop2_inv _ _ _ _ Hp Hs) as (Ha & Hb & Hs1). simple_case IH Ht Hc Ho.
+      destruct (pop2_inv _ _ _ _ Hp Hs) as (Ha & Hb & Hs1). simple_case IH Ht Hc Ho Hedges.
     - (* LessThanOrEqual *) destruct (pop2 s) as [[[a b] s1]|] eqn:Hp; [|exact I].
-      destruct (pop2_inv _ _ _ _ Hp Hs) as (Ha & Hb & Hs1). simple_case IH Ht Hc Ho.
+      destruct (pop2_inv _ _ _ _ Hp Hs) as (Ha & Hb & Hs1). simple_case IH Ht Hc Ho Hedges.
     - (* GreaterThanOrEqual *) destruct (pop2 s) as [[[a b] s1]|] eqn:Hp; [|exact I].
-      destruct (pop2_inv _ _ _ _ Hp Hs) as (Ha & Hb & Hs1). simple_case IH Ht Hc Ho.
+      destruct (pop2_inv _ _ _ _ Hp Hs) as (Ha & Hb & Hs1). simple_case IH Ht Hc Ho Hedges.
     - (* Equal *) destruct (pop2 s) as [[[a b] s1]|] eqn:Hp; [|exact I].
-      destruct (pop2_inv _ _ _ _ Hp Hs) as (Ha & Hb & Hs1). simple_case IH Ht Hc Ho.
+      destruct (pop2_inv _ _ _ _ Hp Hs) as (Ha & Hb & Hs1). simple_case IH Ht Hc Ho Hedges.
     - (* NotEqual *) destruct (pop2 s) as [[[a b] s1]|] eqn:Hp; [|exact I].
-      destruct (pop2_inv _ _ _ _ Hp Hs) as (Ha & Hb & Hs1). simple_case IH Ht Hc Ho.
+      destruct (pop2_inv _ _ _ _ Hp Hs) as (Ha & Hb & Hs1). simple_case IH Ht Hc Ho Hedges.
     - (* StrConcat: the result is a Normal string whatever the operands *)
       destruct (pop2 s) as [[[a b] s1]|] eqn:Hp; [|exact I].
       destruct (pop2_inv _ _ _ _ Hp Hs) as (Ha & Hb & Hs1).
-      nx IH Ht Hc; [apply push_inv; [exact Hs1|reflexivity]|exact Ho].
+      nx IH Ht Hc Hedges; [apply push_inv; [exact Hs1|reflexivity]|exact Ho].
     - (* InOp *) destruct (pop2 s) as [[[a b] s1]|] eqn:Hp; [|exact I].
-      destruct (pop2_inv _ _ _ _ Hp Hs) as (Ha & Hb & Hs1). simple_case IH Ht Hc Ho.
+      destruct (pop2_inv _ _ _ _ Hp Hs) as (Ha & Hb & Hs1). simple_case IH Ht Hc Ho Hedges.
     - (* Not *)
-      destruct (pop1 s) as [[v s1]|] eqn:Hp; [|exact I]. destruct (pop1_inv _ _ _ Hp Hs) as [Hv Hs1]. simple_case IH Ht Hc Ho.
+      destruct (pop1 s) as [[v s1]|] eqn:Hp; [|exact I]. destruct (pop1_inv _ _ _ Hp Hs) as [Hv Hs1]. simple_case IH Ht Hc Ho Hedges.
     - (* Negative *)
-      destruct (pop1 s) as [[v s1]|] eqn:Hp; [|exact I]. destruct (pop1_inv _ _ _ Hp Hs) as [Hv Hs1]. simple_case IH Ht Hc Ho.
+      destruct (pop1 s) as [[v s1]|] eqn:Hp; [|exact I]. destruct (pop1_inv _ _ _ Hp Hs) as [Hv Hs1]. simple_case IH Ht Hc Ho Hedges.
     - (* LoadPath *)
       destruct (load_path_v wd s p) as [v|] eqn:E; [|exact I].
-      nx IH Ht Hc; [apply push_inv; [exact Hs|eapply load_path_v_ok; eassumption]|exact Ho].
+      nx IH Ht Hc Hedges; [apply push_inv; [exact Hs|eapply load_path_v_ok; eassumption]|exact Ho].
     - (* WritePath *)
       destruct (write_path_v wd s p) as [v|] eqn:E; [|exact I].
       destruct (write_value W wr wd true s o v) as [[s1 o1]|] eqn:Ew; [|exact I].
-      destruct (write_value_inv _ _ _ _ _ Ew Hs Ho (write_path_v_ok _ _ _ E Hs)) as [Hs1 Ho1]. nx IH Ht Hc; assumption.
+      destruct (write_value_inv _ _ _ _ _ Ew Hs Ho (write_path_v_ok _ _ _ E Hs)) as [Hs1 Ho1]. nx IH Ht Hc Hedges; assumption.
   Qed.
 
   Theorem run_inv : forall fuel, IHf fuel.
   Proof.
     induction fuel as [|f IH]; [|apply step_inv, IH].
-    intros tpl depth ch ip s o _ _ _ _. exact I.
+    intros tpl depth ch ip s o _ _ _ _ _. exact I.
   Qed.
 
 End Inv.
@@ -887,7 +1239,7 @@ Theorem render_to_inv W wr wd ok (Wok : W -> Prop) :
   world_ok wd ok None ->
   (forall w t w', wr w t = Some w' -> Wok w -> clean ok t = true -> Wok w') ->
   forall fuel tpl block c g w,
-  tpl_okP wd ok None tpl -> ctx_ok ok c = true -> ctx_ok ok g = true -> Wok w ->
+  tpl_okP ok None tpl -> ctx_ok ok c = true -> ctx_ok ok g = true -> Wok w ->
   match render_to W wr wd fuel tpl block c g w with
   | RDone _ (SinkTop w') => Wok w'
   | RDone _ (SinkBuf b) => clean ok b = true
@@ -896,16 +1248,16 @@ Theorem render_to_inv W wr wd ok (Wok : W -> Prop) :
 Proof.
   intros Hw Hwr fuel tpl block c g w Ht Hc Hg Hw0. unfold render_to.
   match goal with |- context [run W wr wd fuel tpl None 0 (t_root_chunk tpl) 0 ?s0 _] => set (s0' := s0) end.
-  assert (Hs0 : SInv wd ok s0'). { constructor; cbn; try reflexivity; [constructor|exact Hc|exact Hg]. }
+  assert (Hs0 : SInv ok s0'). { constructor; cbn; try reflexivity; [constructor|exact Hc|exact Hg]. }
   destruct block as [b|].
   - pose proof (run_inv W wr wd ok Wok None Hw Hwr fuel tpl 0 (t_root_chunk tpl) 0 s0' (SinkBuf [])
-                  Ht (proj1 (proj2 (proj2 Ht))) Hs0 eq_refl) as P.
+                  Ht (proj1 (proj2 (proj2 Ht))) (cmatch_entry _ _ _ (proj2 (proj1 (proj2 (proj2 Ht))))) Hs0 eq_refl) as P.
     destruct (run W wr wd fuel tpl None 0 (t_root_chunk tpl) 0 s0' (SinkBuf [])) as [s1 o1| |]; try exact I.
     destruct P as [Hs1 _].
     destruct (wr w (block_buffer s1)) as [w1|] eqn:Ew; [|exact I].
     eapply Hwr; [exact Ew|exact Hw0|apply Hs1].
   - pose proof (run_inv W wr wd ok Wok None Hw Hwr fuel tpl 0 (t_root_chunk tpl) 0 s0' (SinkTop w)
-                  Ht (proj1 (proj2 (proj2 Ht))) Hs0 Hw0) as P.
+                  Ht (proj1 (proj2 (proj2 Ht))) (cmatch_entry _ _ _ (proj2 (proj1 (proj2 (proj2 Ht))))) Hs0 Hw0) as P.
     destruct (run W wr wd fuel tpl None 0 (t_root_chunk tpl) 0 s0' (SinkTop w)) as [s1 [w1|b1]| |]; try exact I; apply P.
 Qed.
 
@@ -1046,15 +1398,7 @@ Proof.
   - subst fl. exact Hv.
 Qed.
 
-(* ---------- guarded worlds ---------- *)
-
-Lemma guard_body_pol wd ok : body_pol (guard_bodies ok wd) ok.
-Proof.
-  intros d k b c E _. cbn in E. destruct (vok ok (mark_safe b)); [reflexivity|discriminate].
-Qed.
-
-Lemma chunk_okP_guard wd ok ch : chunk_ok ok ch = true -> chunk_okP (guard_bodies ok wd) ok ch.
-Proof. intros H. split; [exact H|]. intros _. apply guard_body_pol. Qed.
+(* ---------- from the decidable checks to the Prop-level conditions ---------- *)
 
 Lemma assoc_get_in {A} (l : list (str * A)) n x : assoc_get l n = Some x -> exists k, In (k, x) l.
 Proof.
@@ -1070,18 +1414,19 @@ Definition tpl_ok_for (ok : N -> bool) (ae : option bool) (t : template) : bool 
   | Some false => false
   end.
 
-Lemma tpl_okP_guard wd ok ae t : tpl_ok_for ok ae t = true -> tpl_okP (guard_bodies ok wd) ok ae t.
+Lemma tpl_okP_of ok ae t : tpl_ok_for ok ae t = true -> tpl_bodies_ok t = true -> tpl_okP ok ae t.
 Proof.
-  intros H.
+  intros H Hb.
   assert (Hc : aeon ae t = true /\ tpl_chunks_ok ok t = true).
   { unfold tpl_ok_for, aeon in *. destruct ae as [[|]|]; try discriminate; [auto|].
     unfold tpl_ok in H. unfold tpl_chunks_ok. rewrite !andb_true_iff in *. tauto. }
   destruct Hc as [Hae Hch]. unfold tpl_chunks_ok in Hch. rewrite !andb_true_iff in Hch.
-  destruct Hch as [[H1 H2] H3].
-  split; [exact Hae|]. split; [apply chunk_okP_guard, H1|]. split; [apply chunk_okP_guard, H2|].
+  destruct Hch as [[H1 H2] H3]. unfold tpl_bodies_ok in Hb. rewrite !andb_true_iff in Hb. destruct Hb as [[B1 B2] B3].
+  split; [exact Hae|]. split; [split; assumption|]. split; [split; assumption|].
   intros b lin E. apply assoc_get_in in E. destruct E as (k & Hin).
   rewrite forallb_forall in H3. specialize (H3 _ Hin). cbn [snd] in H3.
-  apply Forall_forall. intros ch Hch. apply chunk_okP_guard. rewrite forallb_forall in H3. apply H3, Hch.
+  rewrite forallb_forall in B3. specialize (B3 _ Hin). cbn [snd] in B3.
+  apply Forall_forall. intros ch Hch. rewrite forallb_forall in H3, B3. split; [apply H3, Hch|apply B3, Hch].
 Qed.
 
 Section Flat.
@@ -1101,41 +1446,17 @@ Section Flat.
   Hypothesis Hbuild : forall n d ch, assoc_get (w_components wd) n = Some (d, ch) ->
       forall k b c, w_build_ctx wd d k b = ROk c -> kw_ok ok k = true ->
       obody_ok ok b = true -> ctx_ok ok c = true.
-  Hypothesis Htpls : forall n t, assoc_get (w_templates wd) n = Some t -> tpl_ok_for ok ae t = true.
-  Hypothesis Hcomps : forall n d c, assoc_get (w_components wd) n = Some (d, c) -> chunk_ok ok c = true.
+  Hypothesis Htpls : forall n t, assoc_get (w_templates wd) n = Some t ->
+      tpl_ok_for ok ae t = true /\ tpl_bodies_ok t = true.
+  Hypothesis Hcomps : forall n d c, assoc_get (w_components wd) n = Some (d, c) ->
+      chunk_ok ok c = true /\ bodies_from_capture c = true.
 
-  Lemma guarded_world_ok : world_ok (guard_bodies ok wd) ok ae.
+  Lemma plain_world_ok : world_ok wd ok ae.
   Proof.
-    constructor; cbn [guard_bodies w_escape w_format w_filter w_function w_math w_negate w_map_get
-                      w_get_attr w_build_ctx w_templates w_components]; try assumption.
-    - intros n d ch Ec k b c E Hk Hb. rewrite Hb in E. eapply Hbuild; eassumption.
-    - intros n t E. apply tpl_okP_guard, (Htpls _ _ E).
-    - intros n d c E. apply chunk_okP_guard, (Hcomps _ _ _ E).
+    constructor; try assumption.
+    intros n t E. destruct (Htpls _ _ E). apply tpl_okP_of; assumption.
   Qed.
 End Flat.
-
-(* chunks without RenderBodyComponent need no guard *)
-Lemma chunk_okP_nobody wd ok ch : chunk_ok ok ch = true -> has_body_comp ch = false -> chunk_okP wd ok ch.
-Proof. intros H Hn. split; [exact H|]. rewrite Hn. discriminate. Qed.
-
-Lemma tpl_okP_nobody wd ok ae t :
-  tpl_ok_for ok ae t = true -> tpl_has_body_comp t = false -> tpl_okP wd ok ae t.
-Proof.
-  intros H Hnb.
-  assert (Hc : aeon ae t = true /\ tpl_chunks_ok ok t = true).
-  { unfold tpl_ok_for, aeon in *. destruct ae as [[|]|]; try discriminate; [auto|].
-    unfold tpl_ok in H. unfold tpl_chunks_ok. rewrite !andb_true_iff in *. tauto. }
-  destruct Hc as [Hae Hch]. unfold tpl_chunks_ok in Hch. rewrite !andb_true_iff in Hch.
-  destruct Hch as [[H1 H2] H3].
-  unfold tpl_has_body_comp in Hnb. rewrite !orb_false_iff in Hnb. destruct Hnb as [[N1 N2] N3].
-  split; [exact Hae|]. split; [apply chunk_okP_nobody; assumption|]. split; [apply chunk_okP_nobody; assumption|].
-  intros b lin E. apply assoc_get_in in E. destruct E as (k & Hin).
-  rewrite forallb_forall in H3. specialize (H3 _ Hin). cbn [snd] in H3.
-  apply Forall_forall. intros ch Hch. apply chunk_okP_nobody; [rewrite forallb_forall in H3; apply H3, Hch|].
-  destruct (has_body_comp ch) eqn:Eb; [|reflexivity].
-  assert (X : existsb (fun bl : str * list (list instr) => existsb has_body_comp (snd bl)) (t_lineage t) = true); [|congruence].
-  apply existsb_exists. exists (k, lin). split; [exact Hin|]. apply existsb_exists. exists ch. auto.
-Qed.
 
 Lemma wr_str_clean ok : forall (w t w' : str),
   wr_str w t = Some w' -> clean ok w = true -> clean ok t = true -> clean ok w' = true.
@@ -1161,7 +1482,8 @@ Section Default.
   Hypothesis Hbuild : forall n d ch, assoc_get (w_components wd) n = Some (d, ch) ->
       forall k b c, w_build_ctx wd d k b = ROk c -> kw_ok ok_html k = true ->
       obody_ok ok_html b = true -> ctx_ok ok_html c = true.
-  Hypothesis Hcomps : forall n d c, assoc_get (w_components wd) n = Some (d, c) -> chunk_ok ok_html c = true.
+  Hypothesis Hcomps : forall n d c, assoc_get (w_components wd) n = Some (d, c) ->
+      chunk_ok ok_html c = true /\ bodies_from_capture c = true.
 
   Lemma Hesc' : forall s, clean ok_html (w_escape wd s) = true.
   Proof. intros s. rewrite Hesc. apply escape_html_clean. Qed.
@@ -1169,63 +1491,43 @@ Section Default.
   Proof. intros v. rewrite Hfmt. apply scalar_format_clean, Hfp. Qed.
 
   Theorem no_raw_data_when_autoescape_on :
-    (forall n t, assoc_get (w_templates wd) n = Some t -> tpl_ok ok_html t = true) ->
+    (forall n t, assoc_get (w_templates wd) n = Some t -> tpl_ok ok_html t = true /\ tpl_bodies_ok t = true) ->
     forall fuel tpl block c g,
-    tpl_ok ok_html tpl = true -> ctx_ok ok_html c = true -> ctx_ok ok_html g = true ->
-    match render_to str wr_str (guard_bodies ok_html wd) fuel tpl block c g [] with
-    | RDone _ (SinkTop out) => clean ok_html out = true
-    | _ => True
-    end.
-  Proof.
-    intros Htpls fuel tpl block c g Ht Hc Hg.
-    pose proof (render_to_inv str wr_str (guard_bodies ok_html wd) ok_html (fun w => clean ok_html w = true)
-                  (guarded_world_ok wd ok_html None Hesc' Hfmt' Hfilter Hfunction Hmath Hnegate Hmapget Hgetattr
-                     Hbuild Htpls Hcomps)
-                  (wr_str_clean ok_html) fuel tpl block c g [] (tpl_okP_guard wd ok_html None tpl Ht) Hc Hg eq_refl) as P.
-    destruct (render_to str wr_str (guard_bodies ok_html wd) fuel tpl block c g []) as [s1 [out|b]| |]; auto.
-  Qed.
-
-  (* render_component(name, ctx, body, autoescape = true): the component chunk starts the run, the
-     override is Some true; templates reached through includes need not be autoescaped by name *)
-  Theorem render_component_clean :
-    (forall n t, assoc_get (w_templates wd) n = Some t -> tpl_chunks_ok ok_html t = true) ->
-    forall fuel tpl cchunk cctx,
-    tpl_chunks_ok ok_html tpl = true -> chunk_ok ok_html cchunk = true -> ctx_ok ok_html cctx = true ->
-    match run str wr_str (guard_bodies ok_html wd) fuel tpl (Some true) 0 cchunk 0 (new_state cctx) (SinkTop []) with
-    | RDone _ (SinkTop out) => clean ok_html out = true
-    | _ => True
-    end.
-  Proof.
-    intros Htpls fuel tpl cchunk cctx Ht Hch Hc.
-    pose proof (run_inv str wr_str (guard_bodies ok_html wd) ok_html (fun w => clean ok_html w = true) (Some true)
-                  (guarded_world_ok wd ok_html (Some true) Hesc' Hfmt' Hfilter Hfunction Hmath Hnegate Hmapget Hgetattr
-                     Hbuild Htpls Hcomps)
-                  (wr_str_clean ok_html) fuel tpl 0 cchunk 0 (new_state cctx) (SinkTop [])
-                  (tpl_okP_guard wd ok_html (Some true) tpl Ht) (chunk_okP_guard wd ok_html cchunk Hch)
-                  (new_state_inv (guard_bodies ok_html wd) ok_html cctx Hc) eq_refl) as P.
-    destruct (run str wr_str (guard_bodies ok_html wd) fuel tpl (Some true) 0 cchunk 0 (new_state cctx) (SinkTop []))
-      as [s1 [out|b]| |]; try exact I. apply P.
-  Qed.
-
-  (* without RenderBodyComponent in any chunk that can run, no guard is needed *)
-  Theorem no_raw_data_without_body_components :
-    (forall n t, assoc_get (w_templates wd) n = Some t -> tpl_ok ok_html t = true /\ tpl_has_body_comp t = false) ->
-    (forall n d c, assoc_get (w_components wd) n = Some (d, c) -> has_body_comp c = false) ->
-    forall fuel tpl block c g,
-    tpl_ok ok_html tpl = true -> tpl_has_body_comp tpl = false -> ctx_ok ok_html c = true -> ctx_ok ok_html g = true ->
+    tpl_ok ok_html tpl = true -> tpl_bodies_ok tpl = true -> ctx_ok ok_html c = true -> ctx_ok ok_html g = true ->
     match render_to str wr_str wd fuel tpl block c g [] with
     | RDone _ (SinkTop out) => clean ok_html out = true
     | _ => True
     end.
   Proof.
-    intros Htpls Hnb fuel tpl block c g Ht Htn Hc Hg.
-    assert (Hw : world_ok wd ok_html None).
-    { constructor; try assumption; try apply Hesc'; try apply Hfmt'.
-      - intros n t E. destruct (Htpls _ _ E). apply tpl_okP_nobody; assumption.
-      - intros n d ch E. apply chunk_okP_nobody; [eapply Hcomps, E|eapply Hnb, E]. }
-    pose proof (render_to_inv str wr_str wd ok_html (fun w => clean ok_html w = true) Hw
-                  (wr_str_clean ok_html) fuel tpl block c g [] (tpl_okP_nobody wd ok_html None tpl Ht Htn) Hc Hg eq_refl) as P.
+    intros Htpls fuel tpl block c g Ht Htb Hc Hg.
+    pose proof (render_to_inv str wr_str wd ok_html (fun w => clean ok_html w = true)
+                  (plain_world_ok wd ok_html None Hesc' Hfmt' Hfilter Hfunction Hmath Hnegate Hmapget Hgetattr
+                     Hbuild Htpls Hcomps)
+                  (wr_str_clean ok_html) fuel tpl block c g [] (tpl_okP_of ok_html None tpl Ht Htb) Hc Hg eq_refl) as P.
     destruct (render_to str wr_str wd fuel tpl block c g []) as [s1 [out|b]| |]; auto.
+  Qed.
+
+  (* render_component(name, ctx, body, autoescape = true): the component chunk starts the run, the
+     override is Some true; templates reached through includes need not be autoescaped by name *)
+  Theorem render_component_clean :
+    (forall n t, assoc_get (w_templates wd) n = Some t -> tpl_chunks_ok ok_html t = true /\ tpl_bodies_ok t = true) ->
+    forall fuel tpl cchunk cctx,
+    tpl_chunks_ok ok_html tpl = true -> tpl_bodies_ok tpl = true ->
+    chunk_ok ok_html cchunk = true -> bodies_from_capture cchunk = true -> ctx_ok ok_html cctx = true ->
+    match run str wr_str wd fuel tpl (Some true) 0 cchunk 0 (new_state cctx) (SinkTop []) with
+    | RDone _ (SinkTop out) => clean ok_html out = true
+    | _ => True
+    end.
+  Proof.
+    intros Htpls fuel tpl cchunk cctx Ht Htb Hch Hcb Hc.
+    pose proof (run_inv str wr_str wd ok_html (fun w => clean ok_html w = true) (Some true)
+                  (plain_world_ok wd ok_html (Some true) Hesc' Hfmt' Hfilter Hfunction Hmath Hnegate Hmapget Hgetattr
+                     Hbuild Htpls Hcomps)
+                  (wr_str_clean ok_html) fuel tpl 0 cchunk 0 (new_state cctx) (SinkTop [])
+                  (tpl_okP_of ok_html (Some true) tpl Ht Htb) (conj Hch Hcb) (cmatch_entry _ _ _ Hcb)
+                  (new_state_inv ok_html cctx Hc) eq_refl) as P.
+    destruct (run str wr_str wd fuel tpl (Some true) 0 cchunk 0 (new_state cctx) (SinkTop []))
+      as [s1 [out|b]| |]; try exact I. apply P.
   Qed.
 End Default.
 
@@ -1347,7 +1649,7 @@ Proof.
   intros n d ch E k b c Eb Hk Hb. eapply build_ctx1_ok; [eapply Hdefs, E|exact Eb|exact Hk|exact Hb].
 Qed.
 
-(* ---------- the guard is necessary: body.mark_safe() trusts the compiler ---------- *)
+(* ---------- the side condition is necessary: body.mark_safe() trusts the compiler ---------- *)
 
 Definition new_state_with_global (c g : ctx) : state :=
   {| stack := []; loops := []; setvars := []; caps := []; blocks := []; cur_block := None;
@@ -1360,18 +1662,30 @@ Definition bad_tpl : template :=
   {| t_name := s_p; t_chunk := bad_chunk; t_root_chunk := bad_chunk; t_lineage := []; t_autoescape := true |}.
 Definition bad_comps : list (str * (comp_def * list instr)) :=
   [(s_c, ({| cd_params := []; cd_rest := None |}, [WritePath [n_body]]))].
+(* what the compiler emits for the same call: the body is captured first *)
+Definition good_chunk : list instr :=
+  [Capture; WritePath [s_p]; EndCapture; BuildMap 0; RenderBodyComponent s_c; WriteTop].
 
-(* a 4-instruction program no compiler emits: the body operand comes straight from the context *)
+(* a 4-instruction program no compiler emits: the body operand comes straight from the context.
+   Every other hypothesis of the theorem holds; bodies_from_capture is what fails. *)
 Theorem body_mint_needs_capture :
   tpl_ok ok_html bad_tpl = true /\ ctx_ok ok_html [(s_p, VStr poison0 false)] = true /\
   render_to str wr_str (world1 false fp_placeholder [(s_p, bad_tpl)] bad_comps) 50 bad_tpl None
             [(s_p, VStr poison0 false)] [] []
   = RDone (new_state_with_global [(s_p, VStr poison0 false)] []) (SinkTop poison0) /\
   clean ok_html poison0 = false /\
-  (* the guarded world refuses it *)
-  render_to str wr_str (guard_bodies ok_html (world1 false fp_placeholder [(s_p, bad_tpl)] bad_comps)) 50 bad_tpl None
-            [(s_p, VStr poison0 false)] [] [] = RFail ErrRender.
+  bodies_from_capture bad_chunk = false /\ bodies_from_capture good_chunk = true.
 Proof. vm_compute. repeat split; reflexivity. Qed.
+
+(* what the side condition buys at the one instruction that needs it *)
+Lemma body_operand_flagged ch ip n s kw b rest :
+  bodies_from_capture ch = true -> nth_error ch ip = Some (RenderBodyComponent n) ->
+  cmatch (the_table ch) ip s -> stack s = kw :: b :: rest -> exists x, b = VStr x true.
+Proof.
+  intros Hb Hi Hm Hst. destruct (cmatch_step _ _ _ _ _ Hb Hi Hm) as ([A L] & edges & Hrel & Hstep & _).
+  cbn [castep c_stack c_loops] in Hstep. destruct (nth 1 A false) eqn:Hn; [|discriminate].
+  destruct (proj1 Hrel 1 Hn) as (x & Hx). rewrite Hst in Hx. cbn in Hx. inversion Hx. eauto.
+Qed.
 
 (* ================================================================== part 4: the sinks, the mint points (B) *)
 
